@@ -136,6 +136,15 @@ func genProofDoc(r *rand.Rand) (map[string]any, *docGen, int) {
 		rounds[i] = map[string]any{"initial_trees_proof": map[string]any{"evals_proofs": eps}, "steps": steps}
 	}
 	fp := g.exts("Proof.OpeningProof.FinalPoly.Coeffs", sz(17))
+	// trailing zero coefficients / elements are values like any other (a reader that
+	// "normalises" them away drops positions)
+	if len(fp) > 0 && r.Intn(3) == 0 {
+		for k := len(fp) - 1; k >= 0 && k >= len(fp)-1-r.Intn(3); k-- {
+			fp[k] = []uint64{0, 0}
+			g.put(fmt.Sprintf("Proof.OpeningProof.FinalPoly.Coeffs[%d][0].Limb", k), big.NewInt(0))
+			g.put(fmt.Sprintf("Proof.OpeningProof.FinalPoly.Coeffs[%d][1].Limb", k), big.NewInt(0))
+		}
+	}
 	pow := g.u64()
 	g.put("Proof.OpeningProof.PowWitness.Limb", bu(pow))
 	proof["opening_proof"] = map[string]any{
@@ -300,6 +309,26 @@ func c19Corruptions() []corruption {
 		{"scalar_for_extension_pair", true, func(d map[string]any, r *rand.Rand) bool {
 			w := jget(d, "proof", "openings", "wires").([]any)
 			w[r.Intn(len(w))] = json.Number("5")
+			return true
+		}},
+		{"extension_element_with_one_coordinate", true, func(d map[string]any, r *rand.Rand) bool {
+			w := jget(d, "proof", "openings", "wires").([]any)
+			k := r.Intn(len(w))
+			w[k] = []any{w[k].([]any)[0]}
+			return true
+		}},
+		{"extension_element_without_coordinates", true, func(d map[string]any, r *rand.Rand) bool {
+			fp := jget(d, "proof", "opening_proof", "final_poly").(map[string]any)["coeffs"].([]any)
+			fp[r.Intn(len(fp))] = []any{}
+			return true
+		}},
+		{"info_extension_element_with_three_coordinates", false, func(d map[string]any, r *rand.Rand) bool {
+			rounds := jget(d, "proof", "opening_proof", "query_round_proofs").([]any)
+			rd := rounds[r.Intn(len(rounds))].(map[string]any)
+			st := rd["steps"].([]any)
+			ev := st[r.Intn(len(st))].(map[string]any)["evals"].([]any)
+			k := r.Intn(len(ev))
+			ev[k] = append(append([]any{}, ev[k].([]any)...), json.Number("5"))
 			return true
 		}},
 		{"scalar_for_siblings_list", true, func(d map[string]any, r *rand.Rand) bool {
